@@ -238,7 +238,9 @@ def analyse(unit, vr, linemap, report, gen_path='', frame_type=None):
         if r.get('encountered-vir-error'):
             if not undecided:
                 undecided.append('verus front-end (VIR) error: ' + ' | '.join(vr.get('raw_stderr', [])[-3:]))
-        if not r.get('success') and not failures and not undecided:
+        # runs restricted with --verify-module carry no `success` key: errors == 0 and no encountered-error is success
+        ok_ = r.get('success') if 'success' in r else (not r.get('encountered-error') and (r.get('errors') or 0) == 0)
+        if not ok_ and not failures and not undecided:
             undecided.append('verus reported failure without a classified diagnostic (rc=%s): %s' % (vr.get('rc'), ' | '.join(vr.get('raw_stderr', [])[-3:])))
     return failures, undecided
 
